@@ -5,7 +5,7 @@ Composition, I-DATA: the hypotheses of `C01_receiver_prefix_idata` hold for the 
 reliable ordered streams, with the universe built from the sender run (`sendersI`, `nuOf`).
 -/
 namespace NetSys
-open SenderProofs Sender
+open SenderProofs SenderTsn Sender
 
 /-- chunks created by the writes of the NetSys run (each needs one TSN) -/
 def chunksWritten (P : Params) (ops : List Op) : Nat := (written (init P).snd (sndOps P (init P).snd ops)).length
